@@ -746,6 +746,25 @@ def run_helper(case, rec, rng, path, index, d):
                 rec.see("refused-write-on-concatenated")
         if case["i"] % 2:
             rw.repack = True  # the flag a removal sets: nothing was removed, and the session is read-only anyway
+        if (case["i"] // 12) % 2 == 0:
+            # a save under a name that is taken fails: whatever state the workspace is left in, it is not a writable one
+            try:
+                rw.save_as(path)
+                rec.fail("C10.must-raise", op="save_as-onto-existing", cls=label, attr=sc, detail="save_as onto an existing file returned")
+            except Exception as e2:  # noqa: BLE001
+                if not exc_origin(e2)[0] and not isinstance(e2, FileExistsError):
+                    raise
+                rec.see("failed-save_as-in-read-session")
+            exc = None
+            try:
+                e = rw.get_entity(obj_uid)[0]
+                if e is not None:
+                    e.name = "renamed after a failed save_as"
+            except Exception as e2:  # noqa: BLE001
+                if not exc_origin(e2)[0]:
+                    raise
+                exc = e2
+            rec.check("C10.must-raise", exc is not None or e is None, op="write-after-failed-save_as", cls=label, attr=sc, detail="after a failed save_as in a read session a rename was accepted")
         watch.judge(rec, rw, "write-in-read-session", label, sc)
         e = None
         rw.close()
